@@ -51,6 +51,7 @@ type Config struct {
 	AutoBucket        bool
 	HostBucket        bool
 	HostBases         []string
+	HostBasesEmpty    bool // WithHostBucketBase with an empty, non-nil list (configuration read from an empty value)
 	HostBucketOffLast bool // append WithHostBucket(false) after the bases (option order must not matter)
 	NoVersioning      bool
 	FailOnUnimplPage  bool
@@ -236,6 +237,9 @@ func (w *World) buildFaker() {
 	}
 	if len(cfg.HostBases) > 0 {
 		opts = append(opts, gofakes3.WithHostBucketBase(cfg.HostBases...))
+	}
+	if cfg.HostBasesEmpty {
+		opts = append(opts, gofakes3.WithHostBucketBase([]string{}...))
 	}
 	if cfg.HostBucketOffLast {
 		opts = append(opts, gofakes3.WithHostBucket(false))
